@@ -1,160 +1,12 @@
-import UtlsVerif.SessionCtlLegal
+import UtlsVerif.SessionCtlLegalBuild
+import UtlsVerif.SessionCtlLegalHs
+import UtlsVerif.SessionCtlLegalSetC
+import UtlsVerif.SessionCtlLegalSetT
+import UtlsVerif.SessionCtlLegalSetP
 /-!
-# SessionCtlLegal2 — documented call orders, part 2
-
-Builds and `Handshake` preserve the product invariant `pinv` and cannot fail on a documented call
-order (well-formed configuration); `pinv_step` assembles all calls.
+# SessionCtlLegal2 — every call the documentation allows succeeds and preserves `pinv` (`pinv_step`)
 -/
 namespace SessionCtl
-
-/-- the documentation automaton after a build call. -/
-def Doc.afterBuild (d : Doc) (load : Bool) : Doc :=
-  { d with built := d.built || load, fresh := d.injected }
-
-set_option maxHeartbeats 2000000 in
-theorem pinv_build_golang (cfg : Cfg) (load : Bool) (lr : LoadRes) (s : St) (d : Doc) (hg : cfg.golang = true)
-    (h : pinv cfg s d = true) (hdn : d.done = false) :
-    (buildHandshakeState cfg load lr s).2 = none ∧ pinv cfg (buildHandshakeState cfg load lr s).1 (d.afterBuild load) = true := by
-  have hb := build_golang_inv cfg load lr s hg (pinv_inv h) (by
-    simp only [pinv, pinvRest, Bool.and_eq_true, beq_iff_eq] at h; simp_all)
-  refine ⟨hb.2.1, ?_⟩
-  obtain ⟨hi, hnone, -, -, -⟩ := hb
-  simp only [pinv, hi, Bool.true_and]
-  clear hi
-  simp only [pinv, Bool.and_eq_true] at h
-  replace h := h.2
-  obtain ⟨hasCache, state, locked, tracker, calling, status, tRef, pRef, specT, userT, specP, userP, lT, lP, hsS, hsE, hT, hP, raw, ts, shares, filled, held, done⟩ := s
-  obtain ⟨cache, built, ddone, injT, injP, fresh⟩ := d
-  obtain ⟨golang, custom, cT, cP, skip, disabled⟩ := cfg
-  simp only at hg hdn; subst hg; subst hdn
-  cases status <;> cases injT <;> cases injP <;> cases load <;> cases built <;> cases custom <;>
-    simp_all [pinvRest, Doc.afterBuild, Doc.injected, buildHandshakeState, uAssert, okR, failR, R.andThen, usable]
-
-
-set_option maxHeartbeats 4000000 in
-theorem pinv_build_parrot (cfg : Cfg) (load : Bool) (lr : LoadRes) (s : St) (d : Doc) (hg : cfg.golang = false)
-    (hwf : cfg.WF = true) (h : pinv cfg s d = true) (hdn : d.done = false) :
-    (buildHandshakeState cfg load lr s).2 = none ∧ pinv cfg (buildHandshakeState cfg load lr s).1 (d.afterBuild load) = true := by
-  have hinv := pinv_inv h
-  have hrest : pinvRest cfg s d = true := by simp only [pinv, Bool.and_eq_true] at h; exact h.2
-  have hd : s.hsDone = false := by
-    simp only [pinvRest, Bool.and_eq_true, beq_iff_eq] at hrest; simp_all
-  have hb := build_parrot cfg load lr s hg hinv hd
-  have hbi := (build_parrot_inv cfg load lr s hg hinv hd).1
-  generalize buildHandshakeState cfg load lr s = r at hb hbi ⊢
-  obtain ⟨s', o⟩ := r
-  simp only at hbi
-  simp only [pinv, hbi, Bool.true_and]
-  obtain ⟨golang, custom, cT, cP, skip, disabled⟩ := cfg
-  obtain ⟨cache, built, ddone, injT, injP, fresh⟩ := d
-  simp only at hg hdn; subst hg; subst hdn
-  cases o with
-  | none =>
-    refine ⟨rfl, ?_⟩
-    rcases hb with ⟨hl, hs⟩ | ⟨hst, s1, ⟨hm1, hp⟩, ht⟩
-    · -- locked: nothing changes
-      simp only [lockedSame, sessionView, sameObjs, Bool.and_eq_true, beq_iff_eq, Prod.mk.injEq] at hs
-      simp only [pinvRest, Bool.and_eq_true, Bool.or_eq_true, beq_iff_eq] at hrest
-      cases injT <;> cases injP <;> cases load <;> cases built <;> cases custom <;> cases fresh <;>
-        simp_all [pinvRest, Doc.afterBuild, Doc.injected, usable, slots]
-    · have hlk : s.locked = false := by
-        have := hinv; simp only [inv, Bool.and_eq_true, beq_iff_eq] at this; simp_all
-      simp only [pinvRest, Bool.and_eq_true, Bool.or_eq_true, beq_iff_eq] at hrest
-      simp only [tailOk, Bool.and_eq_true, beq_iff_eq] at ht
-      simp only [mid, Bool.and_eq_true, Bool.or_eq_true, beq_iff_eq] at hm1
-      cases custom with
-      | true =>
-        simp only [if_true] at hp; subst hp
-        clear hinv h hbi
-        cases injT with
-        | some a => simp at hrest
-        | none =>
-          cases injP with
-          | some a => simp at hrest
-          | none =>
-            simp only [Doc.injected, Option.isSome_none, Bool.or_false, Bool.and_false, Bool.not_false, Bool.false_eq_true, if_false, Bool.not_true, false_or, true_or, or_true, and_true, true_and] at hrest
-            cases load <;> cases built <;> cases fresh <;>
-              simp only [pinvRest, Doc.afterBuild, Doc.injected, usable, keysOk, Option.isSome_none, Bool.or_false, Bool.and_eq_true, Bool.or_eq_true, beq_iff_eq, Bool.false_eq_true, if_false, if_true, Bool.or_true, Bool.true_or, Bool.not_eq_true'] at ht hm1 hrest ⊢ <;>
-              grind
-      | false =>
-        simp only [Bool.false_eq_true, if_false, presetOk, sameObjs, mid, Bool.and_eq_true, Bool.or_eq_true, beq_iff_eq] at hp
-        clear hinv h hbi
-        have hbf : built = false := by
-          have h1 : built = s.locked := by grind
-          rw [h1, hlk]
-        subst hbf
-        cases load <;> cases injT <;> cases injP <;>
-          simp only [pinvRest, Doc.afterBuild, Doc.injected, usable, keysOk, slots, sameObjs, Option.isSome_none, Option.isSome_some, Option.isNone_none, Option.isNone_some,
-            Bool.or_false, Bool.and_eq_true, Bool.or_eq_true, beq_iff_eq, Bool.false_eq_true, if_false, if_true, Bool.or_true, Bool.true_or,
-            Bool.not_eq_true', Bool.and_false, Bool.false_and, Bool.not_false, Bool.not_true, Bool.false_or] at ht hm1 hrest hp ⊢ <;>
-          grind [St.tObj, St.pObj]
-  | some o =>
-    exfalso
-    obtain ⟨hst, hb⟩ := hb
-    have hlk : s.locked = false := by
-      have := hinv; simp only [inv, Bool.and_eq_true, beq_iff_eq] at this; grind
-    clear hinv h hbi
-    simp only [Cfg.WF, Bool.or_eq_true, beq_iff_eq] at hwf
-    simp only [pinvRest, Doc.injected, usable, Bool.and_eq_true, Bool.or_eq_true, beq_iff_eq, Bool.false_eq_true, if_false,
-      Bool.not_eq_true', Bool.false_and, Bool.not_false] at hrest
-    rcases hb with ⟨hc, hf⟩ | ⟨s1, ⟨hm1, hp⟩, hf⟩
-    · simp only [presetFail, Bool.and_eq_true, Bool.or_eq_true, beq_iff_eq, Bool.not_eq_true'] at hf
-      cases injT <;> cases injP <;> grind
-    · simp only [tailFail, Bool.and_eq_true, bne_iff_ne, beq_iff_eq, Bool.not_eq_true'] at hf
-      cases custom with
-      | true =>
-        simp only [if_true] at hp; subst hp
-        cases injT <;> cases injP <;> cases htr : s1.tRef <;> cases hpr : s1.pRef <;>
-          simp only [htr, hpr, Option.isSome_none, Option.isSome_some, Option.isNone_none, Option.isNone_some, ne_eq, not_true_eq_false, and_false, false_and] at hf hrest <;>
-          grind
-      | false =>
-        simp only [Bool.false_eq_true, if_false, presetOk, Bool.and_eq_true, beq_iff_eq] at hp
-        cases cT <;> cases cP <;> cases injT <;> cases injP <;> cases htr : s1.tRef <;> cases hpr : s1.pRef <;>
-          simp only [htr, hpr, Option.isSome_none, Option.isSome_some, Option.isNone_none, Option.isNone_some, ne_eq, not_true_eq_false, and_false, false_and] at hf hp <;>
-          grind
-
-
-set_option maxHeartbeats 2000000 in
-theorem pinv_hsTail (cfg : Cfg) (lr : LoadRes) (s : St) (d : Doc) (h : pinv cfg s d = true)
-    (hb : d.built = true) (hdn : d.done = false)
-    (hp : cfg.golang = false → s.locked = true) (hgo : cfg.golang = true → s.tracker = .never) :
-    (hsTail cfg lr s).2 = none ∧ pinv cfg (hsTail cfg lr s).1 { d with done := true } = true := by
-  have ht := hsTail_inv cfg lr s (pinv_inv h) hp hgo
-  refine ⟨ht.2.1, ?_⟩
-  have hrest : pinvRest cfg s d = true := by simp only [pinv, Bool.and_eq_true] at h; exact h.2
-  have hlr : s.locked = true → s.raw.isSome = true := by
-    intro hl; have := pinv_inv h
-    simp only [inv, Bool.and_eq_true, Bool.or_eq_true, beq_iff_eq, hl, Bool.not_true, Bool.false_eq_true, false_or] at this
-    rw [this.2]; rfl
-  have hgl := inv_golang_unlocked (pinv_inv h)
-  simp only [pinv, ht.1, Bool.true_and]
-  clear ht h
-  obtain ⟨hasCache, state, locked, tracker, calling, status, tRef, pRef, specT, userT, specP, userP, lT, lP, hsS, hsE, hT, hP, raw, ts, shares, filled, held, done⟩ := s
-  obtain ⟨cache, built, ddone, injT, injP, fresh⟩ := d
-  obtain ⟨golang, custom, cT, cP, skip, disabled⟩ := cfg
-  simp only at hb hdn; subst hb; subst hdn
-  cases golang with
-  | false =>
-    have hl : locked = true := by simpa using hp
-    subst hl
-    cases injT <;> cases injP <;> cases fresh <;> cases custom <;> simp_all [pinvRest, hsTail, okR, usable, slots, Doc.injected]
-  | true =>
-    have hl : locked = false := by simpa using hgl
-    subst hl
-    cases injT <;> cases injP <;> cases lr <;> cases status <;> cases disabled <;> cases hasCache <;> cases custom <;>
-      simp_all [pinvRest, hsTail, loadSession, okR, failR, R.andThen, usable, Doc.injected]
-
-
-theorem pinv_done {cfg : Cfg} {s : St} {d : Doc} (h : pinv cfg s d = true) : s.hsDone = d.done := by
-  simp only [pinv, pinvRest, Bool.and_eq_true, beq_iff_eq] at h
-  grind
-
-theorem pinv_build (cfg : Cfg) (hwf : cfg.WF = true) (load : Bool) (lr : LoadRes) (s : St) (d : Doc)
-    (h : pinv cfg s d = true) (hdn : d.done = false) :
-    (buildHandshakeState cfg load lr s).2 = none ∧ pinv cfg (buildHandshakeState cfg load lr s).1 (d.afterBuild load) = true := by
-  cases hg : cfg.golang with
-  | false => exact pinv_build_parrot cfg load lr s d hg hwf h hdn
-  | true => exact pinv_build_golang cfg load lr s d hg h hdn
 
 /-- every call the documentation allows succeeds and preserves the product invariant. -/
 theorem pinv_step (cfg : Cfg) (hwf : cfg.WF = true) (s : St) (d d' : Doc) (op : Op)
